@@ -655,8 +655,10 @@ def r19_4(ctx: Ctx, agents: List[Tuple[ClassInfo, FuncInfo]]) -> None:
             return False
         ex = e.label[1]
         if isinstance(ex, ast.Compare) and len(ex.ops) == 1 and isinstance(ex.ops[0], (ast.Eq, ast.Is)) and e.label[2]:
-            m = en.member(ex.comparators[0], oh)
-            return unparse(ex.left) == "self.current_kill_chain_stage" and m is not None and m[2] in ("SUCCEEDED", "FAILED")
+            for subj, other in ((ex.left, ex.comparators[0]), (ex.comparators[0], ex.left)):
+                m = en.member(other, oh)
+                if unparse(subj) == "self.current_kill_chain_stage" and m is not None and m[2] in ("SUCCEEDED", "FAILED"):
+                    return True
         return False
 
     p3 = g.path_avoiding(restart + conclude, ended)
@@ -763,9 +765,11 @@ def _response_consulted(ctx: Ctx, en: _Enums, fn: FuncInfo, stage_stmts: List[as
         if not e.label or e.label[0] != "cond" or not e.label[2]:
             return False
         ex = e.label[1]
-        if isinstance(ex, ast.Compare) and len(ex.ops) == 1 and isinstance(ex.ops[0], (ast.Eq, ast.Is)) and unparse(ex.left) == "self.current_kill_chain_stage":
-            m = en.member(ex.comparators[0], fn)
-            return m is not None and m[0] == "stage" and m[2] not in SENTINELS
+        if isinstance(ex, ast.Compare) and len(ex.ops) == 1 and isinstance(ex.ops[0], (ast.Eq, ast.Is)):
+            for subj, other in ((ex.left, ex.comparators[0]), (ex.comparators[0], ex.left)):
+                if unparse(subj) == "self.current_kill_chain_stage":
+                    m = en.member(other, fn)
+                    return m is not None and m[0] == "stage" and m[2] not in SENTINELS
         return False
 
     wit = None
